@@ -10,3 +10,4 @@ open O2P.Jq
 #print axioms source_append
 #print axioms skip_independent
 #print axioms source_invalid_doc
+#print axioms compile_correct
